@@ -4,7 +4,55 @@
      mf <name> <tag>*         -> true | false              (match_file)
      mt <option> <tag>*       -> true | false              (match_tags)
      ri <0|1> <input>         -> R <nil|syntax|nul> <n> <path>* <out> | PANIC | FUEL   (read_imports report input)
-     rc <input>               -> same                                                  (read_comments) *)
+     rc <input>               -> same                                                  (read_comments)
+     g <rest> <section>       -> G <wf_section g rest> <render g> <n> <path>* <render_body g>
+        section := <bom 0|1> trivs trivs <pkg> <n> (trivs decl)^n trivs
+        trivs   := <n> ((s|l|b) <hex>)^n
+        decl    := 1 trivs spec | g trivs <n> (trivs spec)^n trivs
+        spec    := (n | d | i <hex>) trivs (r <hex> | q <n> ((p|e) <hex1>)^n) *)
+exception Bad
+let parse_section (toks : string list) : isection =
+  let rest = ref toks in
+  let next () = match !rest with t :: r -> rest := r; t | [] -> raise Bad in
+  let num () = int_of_string (next ()) in
+  let rec times n f = if n <= 0 then [] else let x = f () in x :: times (n - 1) f in
+  let byte1 () = match bytes_of_hex (next ()) with [b] -> b | _ -> raise Bad in
+  let triv () = match next () with
+    | "s" -> TSp (byte1 ())
+    | "l" -> TLine (bytes_of_hex (next ()))
+    | "b" -> TBlock (bytes_of_hex (next ()))
+    | _ -> raise Bad in
+  let trivs () = let n = num () in times n triv in
+  let item () = match next () with
+    | "p" -> IPlain (byte1 ()) | "e" -> IEsc (byte1 ()) | _ -> raise Bad in
+  let lit () = match next () with
+    | "r" -> SRaw (bytes_of_hex (next ()))
+    | "q" -> let n = num () in SInterp (times n item)
+    | _ -> raise Bad in
+  let spec () =
+    let name = match next () with
+      | "n" -> NNone | "d" -> NDot | "i" -> NId (bytes_of_hex (next ())) | _ -> raise Bad in
+    let mid = trivs () in
+    let path = lit () in
+    { sp_name = name; sp_mid = mid; sp_path = path } in
+  let decl () = match next () with
+    | "1" -> let t1 = trivs () in let sp = spec () in DSingle (t1, sp)
+    | "g" ->
+        let t1 = trivs () in
+        let n = num () in
+        let specs = times n (fun () -> let t = trivs () in let sp = spec () in (t, sp)) in
+        let tend = trivs () in
+        DGroup (t1, specs, tend)
+    | _ -> raise Bad in
+  let bom = (next () = "1") in
+  let t0 = trivs () in
+  let t1 = trivs () in
+  let pkg = bytes_of_hex (next ()) in
+  let n = num () in
+  let decls = times n (fun () -> let t = trivs () in let d = decl () in (t, d)) in
+  let tend = trivs () in
+  if !rest <> [] then raise Bad;
+  { f_bom = bom; f_t0 = t0; f_t1 = t1; f_pkg = pkg; f_decls = decls; f_tend = tend }
 let show_result = function
   | ROk (imps, out, e) ->
       String.concat " " (["R"; (match e with ENone -> "nil" | ESyntax -> "syntax" | ENUL -> "nul");
@@ -23,4 +71,11 @@ let () = serve (function
   | "mt" :: o :: tags -> string_of_bool (match_tags (bytes_of_hex o) (tagset tags))
   | ["ri"; r; x] -> show_result (read_imports (r = "1") (bytes_of_hex x))
   | ["rc"; x] -> show_result (read_comments (bytes_of_hex x))
+  | "g" :: rest :: toks ->
+      (try
+        let g = parse_section toks in
+        let ps = paths g in
+        String.concat " " (["G"; string_of_bool (wf_section g (bytes_of_hex rest)); hex_of_bytes (render g);
+                            string_of_int (List.length ps)] @ List.map hex_of_bytes ps @ [hex_of_bytes (render_body g)])
+      with Bad | Failure _ -> "BAD-SECTION")
   | _ -> "BAD-REQUEST")
